@@ -104,7 +104,10 @@ class Session:
     def call(self, name, fn, arg_ids, params, store=None):
         pre = {k: digest(v) for k, v in self.pool.items()}
         r0 = rng_digest()
-        key = name + '|' + repr(params) + '|' + ','.join(pre[a] for a in arg_ids)
+        # documented transparent work space (scratch) is not part of what a result may depend on: the key of a call with a
+        # scratch buffer is the key of the same call without one
+        kname = 'propagate_fft' if name == 'propagate_fft_scratch' else name
+        key = kname + '|' + repr(params) + '|' + ','.join(pre[a] for a in arg_ids if not (name == 'propagate_fft_scratch' and a == 'SCR'))
         with warnings.catch_warnings():
             warnings.simplefilter('ignore')
             try:
@@ -152,7 +155,10 @@ class Session:
             ('propagate_dft', lambda: l.propagate_dft(p['W1'], pixelscale=2.0 ** -6, shape=(4, 5), oversample=2), ['W1'], (4, 5, 2)),
             ('propagate_dft', lambda: l.propagate_dft(p['W1'], pixelscale=2.0 ** -6, shape=(3, 3), prop_shape=(2, 3), oversample=1), ['W1'], (3, 3, 1)),
             ('propagate_fft', lambda: l.propagate_fft(p['W1'], pixelscale=2.0 ** -6, shape=(4, 4), oversample=2), ['W1'], (4, 4, 2)),
+            ('propagate_fft', lambda: l.propagate_fft(p['W1'], pixelscale=(2.0 ** -6, 2.0 ** -7), shape=(4, 4), oversample=2), ['W1'], ('aniso',)),
             ('propagate_fft_scratch', lambda: l.propagate_fft(p['W1'], pixelscale=2.0 ** -6, shape=(4, 4), oversample=2, scratch=p['SCR']), ['W1', 'SCR'], (4, 4, 2)),
+            ('propagate_fft_scratch', lambda: l.propagate_fft(p['W1'], pixelscale=(2.0 ** -6, 2.0 ** -7), shape=(4, 4), oversample=2, scratch=p['SCR']),
+             ['W1', 'SCR'], ('aniso',)),
             ('field', lambda: p['W1'].field, ['W1'], ()),
             ('intensity', lambda: p['W1'].intensity, ['W1'], ()),
             ('wavefront_insert', lambda: p['W1'].insert(p['ACC'], weight=0.5), ['W1', 'ACC'], (0.5,)),
